@@ -11,7 +11,7 @@ CHECK = {
     "replace": [{"file": "actor/pools.go", "old": "const contextPoolSize = 8192", "new": "const contextPoolSize = 2"}],
     "entries": [{"fn": P + "vC15_ask", "replay": "model-only"},
                 {"fn": P + "vC15_reuse", "replay": "model-only", "cases": {"api": [0, 1]}}],
-    "opts_thorough": {"rounds": 5},
+    "opts_thorough": {"rounds": 4},
     "opts": {"rounds": 3, "unwind": 3, "unwind_mode": "assume", "feasibility": False, "substitute": SUB},
     "stop": list(SUB.keys()),
     "timeout_ms": {"quick": 900000, "thorough": 1800000},
